@@ -238,6 +238,12 @@ fn chain_case<T: TElem>(ctx: &Ctx, rep: &mut Report, case: u64, g: &mut Sm64) {
         let m_all = chains.iter().flatten().sum::<f64>() / (n_chains * len) as f64;
         let cond = (m_all * m_all + wv.w) / wv.w;
         let tol = 2e-3 * wv.rhat + 8.0 * (len as f64) * eps * cond * wv.rhat + 1e-6;
+        if tol > 0.25 * wv.rhat {
+            // running f32 means of x and x^2 cannot resolve the within-chain variance here
+            // (a handful of updates with |mean| >> sd): no relative accuracy can be demanded
+            rep.inconclusive("within-chain variance below what running f32 sums can resolve: R-hat not compared");
+            continue;
+        }
         rep.max("collect_rhat_error_over_tol", (cr[j] as f64 - wv.rhat).abs() / tol);
         if (cr[j] as f64 - wv.rhat).abs() > tol {
             rep.violation(&format!("collect_rhat differs-from-classical-sqrt(var+/W) n_params{}", if n_params > 1 { ">1" } else { "=1" }), mon, case,
